@@ -268,15 +268,39 @@ class AngleSym(SymObject):
 class PointObj(SymObject):
     """Point(...) built inside the interpreted code: homogeneous coordinates as a table"""
 
-    def __init__(self, table: "Table"):
+    kinds = {"PointTensor", "Point", "PointLikeTensor", "Tensor", "ProjectiveTensor", "BoundTensor"}
+
+    def __init__(self, table: "Table", normalised: bool = True):
         self.array = table
-        self.normalized_array = table  # only points built with a trailing 1 (or copied from a normalised table) are created by the hook
+        if normalised:
+            self.normalized_array = table  # points built with a trailing 1 (or copied from a normalised table)
         self.dim = table.shape[0] - 1
         self.shape = table.shape
+        self.free_indices = 0
 
     def neg(self):
         n = self.array.shape[0]
         return PointObj(Table((n,), {(i,): (-self.array.data[(i,)] if i < n - 1 else self.array.data[(i,)]) for i in range(n)}))
+
+
+class LineObj(SymObject):
+    """a line of the plane given by its three coefficients: meet with another line is the cross product"""
+    kinds = {"LineTensor", "Line", "SubspaceTensor", "Subspace", "Tensor", "ProjectiveTensor", "PlaneTensor"}
+
+    def __init__(self, table: "Table"):
+        self.array = table
+        self.dim = table.shape[0] - 1
+        self.shape = table.shape
+        self.free_indices = 0
+
+    def meet(self, other):
+        if isinstance(other, LineObj) and self.array.shape == other.array.shape == (3,):
+            a, b = self.array, other.array
+
+            def c(i, j):
+                return a.data[(i,)] * b.data[(j,)] - a.data[(j,)] * b.data[(i,)]
+            return PointObj(Table((3,), {(0,): c(1, 2), (1,): c(2, 0), (2,): c(0, 1)}), normalised=False)
+        raise Unknown("meet of these objects")
 
 
 class TransObj(SymObject):
@@ -515,7 +539,7 @@ class Interp:
             if all(isinstance(v, int) and not isinstance(v, bool) for v in vals):
                 return list(vals)
             return vals
-        if isinstance(e, ast.ListComp) and len(e.generators) == 1 and not e.generators[0].ifs:
+        if isinstance(e, (ast.ListComp, ast.GeneratorExp)) and len(e.generators) == 1 and not e.generators[0].ifs:
             g = e.generators[0]
             it_ = self.ev(g.iter, env)
             if isinstance(it_, (list, tuple, range)) and len(it_) <= 8 and isinstance(g.target, ast.Name):
@@ -752,6 +776,11 @@ class Interp:
                 v = self.ev(e.args[0], env)
                 if isinstance(v, Table):
                     return v if name == "asarray" else v.copy()
+                if isinstance(v, list) and v and all(isinstance(x, list) and x and all(isinstance(y, Table) for y in x) for x in v):
+                    # a list of lists of vectors: a stack of matrices
+                    mats = [_stack_rows(x) for x in v]
+                    if all(m_.shape == mats[0].shape for m_ in mats):
+                        return Table((len(mats),) + mats[0].shape, {(i,) + k_: x_ for i, m_ in enumerate(mats) for k_, x_ in m_.data.items()})
                 if isinstance(v, list) and v and all(isinstance(x, list) and not all(isinstance(y, int) for y in x) for x in v):
                     rows = [[self.lp(y) for y in x] for x in v]
                     if len({len(r_) for r_ in rows}) == 1:
@@ -823,8 +852,8 @@ class Interp:
                     # elementwise, value not known: one positive atom per entry (only normalisation factors use these)
                     return Table(args[0].shape, {k: LP.sym(f"{name}({v.show()})") for k, v in args[0].data.items()})
                 return LP.sym(f"{name}({args[0].show()})")
-            if name in ("real_if_close", "ascontiguousarray", "copy") and e.args:
-                return self.ev(e.args[0], env)
+            if name in ("real_if_close", "ascontiguousarray", "copy", "conj", "conjugate") and e.args:
+                return self.ev(e.args[0], env)  # the symbols stand for real numbers
             if name == "isinf" and len(e.args) == 1:
                 try:
                     return self.test(e, env)
@@ -874,6 +903,8 @@ class Interp:
                 names_ = [x.id for x in (e.args[1].elts if isinstance(e.args[1], ast.Tuple) else [e.args[1]]) if isinstance(x, ast.Name)]
                 if isinstance(v, PointSym) and names_:
                     return any(n_ in POINT_CLASSES for n_ in names_)
+                if isinstance(v, SymObject) and hasattr(v, "kinds") and names_:
+                    return any(n_ in v.kinds for n_ in names_)
                 return Opaque("isinstance")
             if name in ("all", "any") and len(e.args) == 1:
                 v = self.ev(e.args[0], env)
@@ -909,6 +940,9 @@ class Interp:
             t = _stack_rows([self.num(x) for x in v]) if isinstance(v, list) else self.num(v)
             if isinstance(t, Table) and len(t.shape) == 3 and name == "det":
                 return Table((t.shape[0],), {(i,): _det_table(t.get(i)) for i in range(t.shape[0])})
+            if isinstance(t, Table) and len(t.shape) == 3 and name == "adjugate":
+                parts = [_adjugate_table(t.get(i)) for i in range(t.shape[0])]
+                return Table((len(parts),) + parts[0].shape, {(i,) + k_: x_ for i, p_ in enumerate(parts) for k_, x_ in p_.data.items()})
             if isinstance(t, Table):
                 return _det_table(t) if name == "det" else _adjugate_table(t)
         if name == "cross" and len(e.args) == 2:
@@ -1663,21 +1697,26 @@ def rule_crossratio(run: Run, prog: Program) -> int:
     want_den = (xs[0] - xs[3]) * (xs[1] - xs[2])
     n = 0
     for label, dim, with_from in (("four points of a line in the plane", 2, False), ("four points of a line in the plane, seen from a fifth point", 2, True),
-                                  ("four points of a line in 3-space", 3, False)):
+                                  ("four points of a line in 3-space", 3, False), ("four lines of the plane through one point, with slopes x_i", 2, "lines")):
         n += 1
         base = [LP.sym(f"p{i}") for i in range(dim)] + [LP.const(1)]
         direction = [LP.sym(f"q{i}") for i in range(dim)] + [LP.const(0)]
         env: dict = {}
         for k, x in enumerate(xs):
+            if with_from == "lines":
+                # the line through (p0, p1) with direction (1, x): x X - Y + (p1 - x p0) = 0
+                env[params[k]] = LineObj(Table((3,), {(0,): x, (1,): LP.const(-1), (2,): base[1] - x * base[0]}))
+                continue
             coords = [b_ + x * d_ for b_, d_ in zip(base, direction)]
             pt = PointSym(f"pt{k}", dim, coords=coords[:-1])
             env[params[k]] = pt
         if len(params) > 4:
-            env[params[4]] = PointSym("o", 2) if with_from else None
+            env[params[4]] = PointSym("o", 2) if with_from is True else None
         it = Interp(prog, None, {})
         it.ratio_mode = True
         it.hooks = {"matvec": lambda a_, k_: _dot(a_[0], a_[1]) if len(a_) == 2 and isinstance(a_[0], Table) and isinstance(a_[1], Table) else Opaque("matvec"),
-                    "is_collinear": lambda a_, k_: True, "is_concurrent": lambda a_, k_: True}
+                    "is_collinear": lambda a_, k_: True, "is_concurrent": lambda a_, k_: True,
+                    "from_array": lambda a_, k_: LineObj(a_[-1]) if a_ and isinstance(a_[-1], Table) and a_[-1].shape == (3,) else Opaque("from_array")}
         # the arguments are distinct points: `a == b` is false
         it.assume = {"distinct": True}
         loc = fn.loc
@@ -1701,7 +1740,19 @@ def rule_crossratio(run: Run, prog: Program) -> int:
         if den.is_zero():
             run.add("E19.cr", fn.short, label, VIOLATION, "the denominator of the returned quotient vanishes identically for collinear points", loc)
         elif resid.is_zero():
-            run.add("E19.cr", fn.short, label, PROVEN, "the quotient of determinants equals (x1 - x3)(x2 - x4) / ((x1 - x4)(x2 - x3)) identically", loc)
+            # the implementation must not be 0/0 on a whole coordinate hyperplane of legal configurations (base point or vertex on an axis)
+            degenerate = []
+            for sym_ in sorted({s_ for mono in den.t for s_, _e in mono if not s_.startswith("w_")} - {f"x{i}" for i in range(1, 5)}):
+                d0 = LP({k_: v_ for k_, v_ in den.t.items() if sym_ not in dict(k_)})
+                if d0.is_zero():
+                    degenerate.append(sym_)
+            if degenerate:
+                run.add("E19.cr", fn.short, label, VIOLATION,
+                        f"the quotient is the cross ratio for generic positions, but numerator and denominator both vanish whenever `{degenerate[0]}` = 0 "
+                        f"(a coordinate of the base point / vertex): 0/0 = nan for every such configuration", loc)
+            else:
+                run.add("E19.cr", fn.short, label, PROVEN, "the quotient of determinants equals (x1 - x3)(x2 - x4) / ((x1 - x4)(x2 - x3)) identically, and its denominator "
+                                                             "vanishes on no coordinate hyperplane of the configurations", loc)
         else:
             # which classical value is it, if any: the six values of the cross ratio under permutations
             lam_n, lam_d = want_num, want_den
